@@ -669,6 +669,8 @@ def runInst (evs : List Nat) : List Nat := evs.foldl (fun conv k => k :: conv) [
     as found in the SOURCE by the translator (Gen.newGuard) -/
 inductive NewGuard
   | always                 -- `convert_to_payload(cls)` is a plain statement of `__new__`
+  | oncePerClass           -- converts a class that has not been converted itself yet (a per-class marker, or any other
+                           --   spelling that the translator's probe on the live classes finds equivalent)
   | ifNoFormatList         -- `if not cls.format_list: convert_to_payload(cls)`
   | unknown                -- anything else
 deriving Repr, DecidableEq, Inhabited
@@ -685,6 +687,7 @@ def DChain.classData {V : Type} (c : DChain V) (conv : List Nat) (k : Nat) : Exc
 def DChain.newStep {V : Type} (g : NewGuard) (c : DChain V) (conv : List Nat) (k : Nat) : List Nat :=
   match g with
   | .always => k :: conv
+  | .oncePerClass => if conv.contains k then conv else k :: conv
   | .ifNoFormatList => match c.classData conv k with
     | .ok ([], _) => k :: conv
     | _ => conv
